@@ -179,7 +179,7 @@ _is_valid_version = re.compile(
       # we are adding the extra check that it must end with alphanum
       r'[A-Za-z0-9\.\+\~]*[A-Za-z0-9]-[A-Za-z0-9\+\.\~]*[A-Za-z0-9\~]'
     r')?'
-    r'$').match
+    r'$', re.ASCII).match
 
 
 def eval_constraint(version1, operator, version2):
